@@ -1,4 +1,5 @@
 import Gbo.Proofs.Transform
+import Gbo.Proofs.ScaleIsect
 /-
   C08 — results commute with exact similarity transforms.  Proved: the two exact predicates everything
   else is built from — coordinate comparisons and the orientation sign, hence the whole event order — are
@@ -31,5 +32,18 @@ theorem C08_orientation_mirror (a b c : Pt) :
 example : cmpView (mapView (scalePt 8) ⟨⟨0, 0⟩, true, some ⟨1, 1⟩, true⟩) (mapView (scalePt 8) ⟨⟨0, 0⟩, true, some ⟨2, 1⟩, false⟩)
     = cmpView ⟨⟨0, 0⟩, true, some ⟨1, 1⟩, true⟩ ⟨⟨0, 0⟩, true, some ⟨2, 1⟩, false⟩ :=
   C08_event_order_scale 8 (by decide +kernel) _ _
+
+/-- **The rounded intersection routine commutes with exact scaling.**  If the arithmetic rounds `c·q` and
+    `c²·q` to `c` resp. `c²` times the rounding of `q` (binary floating point: `c` a power of two, nothing
+    over- or underflowing — the hypothesis is validated per run by the `mappedrings` checks at 2^-60 and
+    2^-200 and by the scaled f32 cases), then the computed intersection of the scaled segments is the scaled
+    computed intersection: same classification, coordinates scaled bit for bit.  With `C08_event_order_scale`
+    and `C08_orientation_scale` every decision and every computed coordinate of the sweep scales. -/
+theorem C08_intersection_scale (ar : Arith) (c : Rat) (h : ScalesExactly ar c) (hc : 0 < c) (a1 a2 b1 b2 : Pt) :
+    ar.isect (scalePt c a1) (scalePt c a2) (scalePt c b1) (scalePt c b2) = scaleIsect c (ar.isect a1 a2 b1 b2) :=
+  isect_scale h hc a1 a2 b1 b2
+
+/-- the hypothesis is satisfiable: exact arithmetic scales exactly by every factor -/
+example (c : Rat) : ScalesExactly Arith.exact c := scalesExactly_exact c
 
 end Gbo.Props
